@@ -55,8 +55,26 @@ CONFIGS = {
                         {'quick': 5, 'thorough': 7}),
     'paged-checks-21': ({'prs': (1,), 'n_ext': 21, 'flip': (0, 10, 20), 'ext': 'sfp', 'knobs': ()}, ROOTS1,
                         {'quick': None, 'thorough': 6}),
+    # a world change lands, and its webhook reaches the real handler, while the k-th GitHub request of a running CI
+    # pass is in flight (k answered so far).  The pass is then resumed; later events are the usual ones.
+    'midpass-webhook-one-pr': ({'prs': (1,), 'knobs': (), 'ext': 'sf',
+                                'windows': {'bases': ('tick',), 'ks': (0, 1, 2, 3),
+                                            'changes': ('label', 'review', 'target', 'push')}},
+                               ROOTS1, {'quick': 4, 'thorough': None}),
+    'midpass-webhook-one-pr-full': ({'prs': (1,), 'knobs': ('label', 'review'), 'ext': 'sf',
+                                     'windows': {'bases': ('tick', 'hook'), 'ks': (0, 1, 2, 3, 4, 5, 6),
+                                                 'changes': ('label', 'review', 'target', 'push', 'ext')}},
+                                    ROOTS1, {'quick': None, 'thorough': 5}),
+    'midpass-webhook-two-prs': ({'prs': (1, 2), 'knobs': (), 'ext': 'sf',
+                                 'windows': {'bases': ('tick', 'hook'), 'ks': (0, 1, 2, 3, 4, 5),
+                                             'changes': ('label', 'review', 'target', 'push')}},
+                                ROOTS2, {'quick': None, 'thorough': 4}),
 }
 STATE_CAP = 3_000_000
+
+
+def _lst(x):
+    return [_lst(v) for v in x] if isinstance(x, (list, tuple)) else x
 
 
 def _hkey(h):
@@ -292,7 +310,7 @@ def check(tier, seed, procs):
             per_cfg[name]['cap'] = f'state cap {STATE_CAP} hit after level {len(levels) - 1}'
     violations = []
     for sig, (h, msg, name) in sorted(viols.items(), key=lambda kv: (_hkey(kv[1][0]), kv[0])):
-        events = [list(e) for e in cw.dec_history(h)]
+        events = _lst(cw.dec_history(h))
         still = _with_protection(h, sig, CONFIGS[name][0])
         prompt = sig in per_cfg['two-prs-prompt-webhooks']['violation_signatures']
         msg = (f'{msg}; history={events}; '
@@ -308,7 +326,7 @@ def check(tier, seed, procs):
         'states': states,
         'transitions': transitions,
         'traces_validated_against_impl': transitions,
-        'samples': [{'config': name, 'history': [list(e) for e in cw.dec_history(h)],
+        'samples': [{'config': name, 'history': _lst(cw.dec_history(h)),
                      'outcome': 'merged; every clause of the statement true in the world'} for name, h in samples[:4]],
         'exhaustive': not capped,
         'bounds': '; '.join(
@@ -321,6 +339,8 @@ def check(tier, seed, procs):
         'merge_puts': counters.get('merge_puts', 0),
         'merge_puts_rejected_stale_head_409': counters.get('merge_rejected_409_head_moved', 0),
         'graphql_rollup_pages_beyond_first': counters.get('graphql_pages_beyond_first', 0),
+        'midpass_webhook_windows_fired': counters.get('windows_fired', 0),
+        'clauses_excused_change_inside_merging_pass': counters.get('clauses_excused_change_inside_merging_pass', 0),
         'ci_update_passes': counters.get('ticks', 0) + counters.get('batch_callbacks', 0)
         + sum(x for k, x in counters.items() if k.startswith('webhooks_')),
         'counters': dict(sorted(counters.items())),
@@ -333,6 +353,8 @@ def check(tier, seed, procs):
         vac = 'no test batch was started / no batch callback delivered'
     elif counters.get('graphql_pages_beyond_first', 0) == 0:
         vac = 'the status rollup never needed a second GraphQL page'
+    elif counters.get('windows_fired', 0) == 0:
+        vac = 'no mid-pass webhook window ever fired'
     return {
         'coverage': cov,
         'violations': violations,
@@ -363,7 +385,7 @@ def replay(obj):
     from vf import ci_world as cw
 
     cfg = CONFIGS[obj.get('config', 'two-prs')][0]
-    hist = [tuple(e) for e in obj['history']]
+    hist = [cw._tup(e) for e in obj['history']]
     _, res = cw.replay_history(hist, enforce=bool(obj.get('enforce', False)), cfg=cfg)
     hits = [(s, m) for v, _, _ in res for s, m in v if obj.get('signature') in (None, s)]
     if hits:
